@@ -61,6 +61,7 @@ func c11Files(root string) {
 	w(".info_i.dat", ref.NewInfoFork("i.dat", "JPEG", "GKON", "").Encode()) // stored type differs from what the extension suggests
 	w("p.bin.incomplete", []byte("partia"))
 	w("d/inner.txt", []byte("in"))
+	w("dé/in2.txt", []byte("in2")) // a folder whose listed name is not ASCII: everything below it is addressed through Mac Roman path items
 	w("other/q.sit/keep.txt", []byte("k")) // a folder that has the name of a file: moving that file here must fail and change nothing
 	_ = os.MkdirAll(filepath.Join(root, "e"), 0755)
 }
@@ -285,7 +286,7 @@ func (x *c11World) apply(op string) bool {
 		m.comments[src] = ""
 	case "del":
 		src := p[1]
-		if !m.exists(src) {
+		if !m.exists(src) && !m.exists(src+".incomplete") { // a partial upload is listed, and deleted, under its final name
 			return false
 		}
 		r := x.req(ref.Tx{Type: ref.TDeleteFile, Fields: append(pathFields(dirOf(src)), ref.F(ref.FFileName, macRoman(filepath.Base(src))))})
@@ -524,6 +525,7 @@ func c11Alphabet() []string {
 	for _, d := range []string{"d", "e"} {
 		a = append(a, "rename|"+d+"|dd", "move|"+d+"|e", "move|"+d+"|d", "del|"+d, "comment|"+d)
 	}
+	a = append(a, "del|p.bin", "mkdir|dé/new", "mkdir|dé/in2.txt", "del|dé/in2.txt", "rename|dé/in2.txt|r2.txt", "move|a.txt|dé", "move|dé/in2.txt|e", "comment|dé/in2.txt", "alias|a.txt|dé", "rename|dé|dd", "move|dé|e", "del|dé", "mkdir|zé/sub")
 	a = append(a, "mkdir|new", "mkdir|a.txt", "mkdir|d", "mkdir|d/new", "mkdir|zé", "alias|a.txt|e", "alias|d|e", "alias|q.sit|d",
 		"rename|n1.txt|a.zip", "rename|a.txt|a.zip", "rename|i.dat|i.txt",
 		"movefail|q.sit|other", "renamefail|q.sit|d", "renamefail|a.txt|e", "renamefail|i.dat|d", "uncomment|q.sit", "uncomment|a.txt", "uncomment|d", "del|n1.txt", "move|n1.txt|e", "comment|n1.txt", "del|dd", "rename|dd|d", "mkdir|dd", "comment|e/a.txt", "del|e/a.txt", "rename|e/a.txt|r.txt")
